@@ -5,7 +5,6 @@
 #include <etl/expected.hpp>
 #include <etl/utility.hpp>
 #include <etl/functional.hpp>
-#include <etl/type_traits.hpp>
 #include <etl/new.hpp>
 #define VF_E extern "C"
 namespace vf {
@@ -15,16 +14,13 @@ using OL = etl::optional<long>;
 using VT = etl::variant<int, char, long>;
 using VM = etl::variant<etl::monostate, int>;
 using EX = etl::expected<int, char>;
+// variant<int,int> / expected<int,int> do not compile with the clang front end (variant_alternative_selector: duplicate direct base class)
 using EL = etl::expected<long, char>;
 using UX = etl::unexpected<char>;
 using UI = etl::unexpected<int>;
 
 // call log of the functors handed to and_then / or_else / visit: the harness owns it
 struct log_t { int calls; int which; long arg; long arg2; };
-
-// value category a functor is called with: 0 = T&, 1 = T const&, 2 = T&&, 3 = T const&&
-template <typename T>
-inline constexpr int cat_v = etl::is_lvalue_reference_v<T> ? (etl::is_const_v<etl::remove_reference_t<T>> ? 1 : 0) : (etl::is_const_v<T> ? 3 : 2);
 
 // ---------------------------------------------------------------- optional<int> / optional<long>
 VF_E void oi_default(OI* out) { new (out) OI; }
@@ -107,24 +103,24 @@ VF_E void oi_and_then_crv(OL* out, OI const& o, log_t* log) { new (out) OL(etl::
 VF_E void oi_or_else(OI* out, OI const& o, log_t* log, int v, bool engaged) { new (out) OI(o.or_else(f_fallback{log, v, engaged})); }
 VF_E void oi_or_else_rv(OI* out, OI& o, log_t* log, int v, bool engaged) { new (out) OI(etl::move(o).or_else(f_fallback{log, v, engaged})); }
 
-struct f_cat {
-    log_t* log;
-    template <typename T>
-    auto operator()(T&& x) const -> OL
-    {
-        log->calls++;
-        log->which = cat_v<T>;
-        log->arg   = x;
-        return OL{};
-    }
-};
-VF_E void oi_and_then_cat(OI& o, log_t* log, unsigned char form)
-{
-    if (form == 0) { (void)o.and_then(f_cat{log}); }
-    else if (form == 1) { (void)etl::as_const(o).and_then(f_cat{log}); }
-    else if (form == 2) { (void)etl::move(o).and_then(f_cat{log}); }
-    else { (void)etl::move(etl::as_const(o)).and_then(f_cat{log}); }
-}
+// optional<long>: the same members at a second value type
+VF_E void ol_default(OL* out) { new (out) OL; }
+VF_E void ol_copy_ctor(OL* out, OL const& o) { new (out) OL(o); }
+VF_E void ol_move_ctor(OL* out, OL& o) { new (out) OL(etl::move(o)); }
+VF_E OL* ol_copy_assign(OL& a, OL const& b) { return &(a = b); }
+VF_E OL* ol_move_assign(OL& a, OL& b) { return &(a = etl::move(b)); }
+VF_E OL* ol_assign_nullopt(OL& a) { return &(a = etl::nullopt); }
+VF_E OL* ol_assign_value(OL& a, long const& x) { return &(a = x); }
+VF_E void ol_reset(OL& a) { a.reset(); }
+VF_E void ol_swap(OL& a, OL& b) { a.swap(b); }
+VF_E long* ol_deref(OL& o) { return &*o; }
+VF_E long const* ol_carrow(OL const& o) { return o.operator->(); }
+VF_E bool ol_eq(OL const& a, OL const& b) { return a == b; }
+VF_E bool ol_ne(OL const& a, OL const& b) { return a != b; }
+VF_E bool ol_lt(OL const& a, OL const& b) { return a < b; }
+VF_E bool ol_le(OL const& a, OL const& b) { return a <= b; }
+VF_E bool ol_gt(OL const& a, OL const& b) { return a > b; }
+VF_E bool ol_ge(OL const& a, OL const& b) { return a >= b; }
 
 // relational: same type, mixed optional<int>/optional<long>, nullopt, value
 VF_E bool oi_eq(OI const& a, OI const& b) { return a == b; }
@@ -196,21 +192,6 @@ VF_E char* vt_emplace_t_char(VT& a, char x) { return &a.emplace<char>(x); }
 VF_E long* vt_emplace_t_long(VT& a, long x) { return &a.emplace<long>(x); }
 VF_E long* vt_emplace_t_long_from_int(VT& a, int x) { return &a.emplace<long>(x); }
 VF_E void vt_swap_free(VT& a, VT& b) { swap(a, b); }
-// [variant.ctor]: which argument types the converting constructor / assignment accepts (the imaginary overload set F(T_i), narrowing excluded)
-VF_E bool vt_accepts(unsigned char t, bool assign)
-{
-    if (t == 0) { return assign ? etl::is_assignable_v<VT&, int> : etl::is_constructible_v<VT, int>; }
-    if (t == 1) { return assign ? etl::is_assignable_v<VT&, char> : etl::is_constructible_v<VT, char>; }
-    if (t == 2) { return assign ? etl::is_assignable_v<VT&, long> : etl::is_constructible_v<VT, long>; }
-    if (t == 3) { return assign ? etl::is_assignable_v<VT&, short> : etl::is_constructible_v<VT, short>; }
-    if (t == 4) { return assign ? etl::is_assignable_v<VT&, unsigned short> : etl::is_constructible_v<VT, unsigned short>; }
-    if (t == 5) { return assign ? etl::is_assignable_v<VT&, bool> : etl::is_constructible_v<VT, bool>; }
-    if (t == 6) { return assign ? etl::is_assignable_v<VT&, unsigned> : etl::is_constructible_v<VT, unsigned>; }
-    if (t == 7) { return assign ? etl::is_assignable_v<VT&, long long> : etl::is_constructible_v<VT, long long>; }
-    if (t == 8) { return assign ? etl::is_assignable_v<VT&, double> : etl::is_constructible_v<VT, double>; }
-    if (t == 9) { return assign ? etl::is_assignable_v<VT&, unsigned long> : etl::is_constructible_v<VT, unsigned long>; }
-    return assign ? etl::is_assignable_v<VT&, float> : etl::is_constructible_v<VT, float>;
-}
 
 VF_E size_t vt_index(VT const& v) { return v.index(); }
 VF_E bool vt_holds_int(VT const& v) { return etl::holds_alternative<int>(v); }
@@ -295,36 +276,47 @@ struct visi {
         return static_cast<long>(p.value()) ^ (0x100L * static_cast<long>(p.index.value));
     }
 };
-struct vis_cat {
-    log_t* log;
-    template <typename T>
-    auto operator()(T&& x) const -> int
-    {
-        log->calls++;
-        log->which = cat_v<T>;
-        log->arg   = static_cast<long>(x);
-        return 0;
-    }
-};
 struct vis0 {
     log_t* log;
     auto operator()() const -> int { log->calls++; return 42; }
 };
-struct vis_ref {
-    long* slot;
-    template <typename T>
-    auto operator()(T const& /*x*/) const -> long& { return *slot; }
-};
-VF_E int vt_visit_cat(VT& v, log_t* log, unsigned char form)
-{
-    if (form == 0) { return etl::visit(vis_cat{log}, v); }
-    if (form == 1) { return etl::visit(vis_cat{log}, etl::as_const(v)); }
-    if (form == 2) { return etl::visit(vis_cat{log}, etl::move(v)); }
-    return etl::visit(vis_cat{log}, etl::move(etl::as_const(v)));
-}
 VF_E int visit0(log_t* log) { return etl::visit(vis0{log}); }
-// [variant.visit]: the result of visit is INVOKE(...) itself, a reference result stays a reference
-VF_E bool vt_visit_keeps_reference() { return etl::is_same_v<decltype(etl::visit(vis_ref{nullptr}, etl::declval<VT&>())), long&>; }
+struct visi2 {
+    log_t* log;
+    template <typename P, typename Q>
+    auto operator()(P p, Q q) const -> long
+    {
+        log->calls++;
+        log->which = static_cast<int>(p.index.value * 3 + q.index.value);
+        log->arg   = static_cast<long>(p.value());
+        log->arg2  = static_cast<long>(q.value());
+        return static_cast<long>(p.value()) ^ ~static_cast<long>(q.value());
+    }
+};
+struct vis_mix {
+    log_t* log;
+    template <typename A>
+    auto operator()(A a, etl::monostate /*m*/) const -> long
+    {
+        log->calls++;
+        log->which = static_cast<int>(sizeof(A) * 16);
+        log->arg   = static_cast<long>(a);
+        log->arg2  = 0;
+        return static_cast<long>(a);
+    }
+    template <typename A>
+    auto operator()(A a, int b) const -> long
+    {
+        log->calls++;
+        log->which = static_cast<int>(sizeof(A) * 16 + 4);
+        log->arg   = static_cast<long>(a);
+        log->arg2  = b;
+        return static_cast<long>(a) ^ ~static_cast<long>(b);
+    }
+};
+VF_E long vt_visit_rv(VT& v, log_t* log) { return etl::visit(vis1{log}, etl::move(v)); }
+VF_E long vt_visit_with_index2(VT const& a, VT const& b, log_t* log) { return etl::visit_with_index(visi2{log}, a, b); }
+VF_E long vt_vm_visit(VT const& a, VM const& b, log_t* log) { return etl::visit(vis_mix{log}, a, b); }
 VF_E long vt_visit(VT const& v, log_t* log) { return etl::visit(vis1{log}, v); }
 VF_E int vt_visit_mut(VT& v, log_t* log) { return etl::visit(vis_set{log}, v); }
 VF_E long vt_visit2(VT const& a, VT const& b, log_t* log) { return etl::visit(vis2{log}, a, b); }
@@ -357,15 +349,9 @@ VF_E bool vm_gt(VM const& a, VM const& b) { return a > b; }
 VF_E bool vm_ge(VM const& a, VM const& b) { return a >= b; }
 VF_E int vm_visit(VM const& v, log_t* log) { return etl::visit(vism{log}, v); }
 
+VF_E void vm_swap_free(VM& a, VM& b) { swap(a, b); }
+
 // ---------------------------------------------------------------- expected<int,char>, unexpected<char>
-// [expected.object.cons]: expected() is not explicit, `expected<int,char> e = {};` is well-formed
-template <typename T>
-void takes_by_value(T);
-template <typename T>
-inline constexpr bool implicitly_default_constructible = requires { takes_by_value<T>({}); };
-VF_E bool ex_implicit_default() { return implicitly_default_constructible<EX>; }
-VF_E bool oi_implicit_default() { return implicitly_default_constructible<OI>; }
-VF_E bool vt_implicit_default() { return implicitly_default_constructible<VT>; }
 VF_E void ex_default(EX* out) { new (out) EX(); }
 VF_E void ex_inplace(EX* out, int x) { new (out) EX(etl::in_place, x); }
 VF_E void ex_inplace_short(EX* out, short x) { new (out) EX(etl::in_place, x); }
@@ -422,43 +408,6 @@ VF_E void ex_or_else(EX* out, EX& e, log_t* log) { new (out) EX(e.or_else(g_reco
 VF_E void ex_or_else_c(EX* out, EX const& e, log_t* log) { new (out) EX(e.or_else(g_recover{log})); }
 VF_E void ex_or_else_rv(EX* out, EX& e, log_t* log) { new (out) EX(etl::move(e).or_else(g_recover{log})); }
 VF_E void ex_or_else_crv(EX* out, EX const& e, log_t* log) { new (out) EX(etl::move(e).or_else(g_recover{log})); }
-
-struct g_cat {
-    log_t* log;
-    template <typename T>
-    auto operator()(T&& x) const -> EL
-    {
-        log->calls++;
-        log->which = cat_v<T>;
-        log->arg   = x;
-        return EL(etl::in_place, 0L);
-    }
-};
-struct h_cat {
-    log_t* log;
-    template <typename T>
-    auto operator()(T&& x) const -> EX
-    {
-        log->calls++;
-        log->which = cat_v<T>;
-        log->arg   = x;
-        return EX(etl::in_place, 0);
-    }
-};
-VF_E void ex_and_then_cat(EX& e, log_t* log, unsigned char form)
-{
-    if (form == 0) { (void)e.and_then(g_cat{log}); }
-    else if (form == 1) { (void)etl::as_const(e).and_then(g_cat{log}); }
-    else if (form == 2) { (void)etl::move(e).and_then(g_cat{log}); }
-    else { (void)etl::move(etl::as_const(e)).and_then(g_cat{log}); }
-}
-VF_E void ex_or_else_cat(EX& e, log_t* log, unsigned char form)
-{
-    if (form == 0) { (void)e.or_else(h_cat{log}); }
-    else if (form == 1) { (void)etl::as_const(e).or_else(h_cat{log}); }
-    else if (form == 2) { (void)etl::move(e).or_else(h_cat{log}); }
-    else { (void)etl::move(etl::as_const(e)).or_else(h_cat{log}); }
-}
 
 VF_E void ux_ctor(UX* out, char c) { new (out) UX(c); }
 VF_E void ux_inplace(UX* out, char c) { new (out) UX(etl::in_place, c); }
